@@ -176,7 +176,9 @@ type lisCleanup struct {
 	f  func()
 }
 
-func newLisServer() (*lisObs, server.Server, lisCleanup, string) {
+func newLisServer() (*lisObs, server.Server, lisCleanup, string) { return newLisServerCT(1) }
+
+func newLisServerCT(ct int) (*lisObs, server.Server, lisCleanup, string) {
 	obs := &lisObs{Closed: []bool{}}
 	var cl lisCleanup
 	cl.f = func() {}
@@ -203,7 +205,7 @@ func newLisServer() (*lisObs, server.Server, lisCleanup, string) {
 	}
 	var mc configuration.MqttConfig
 	mc.Version = []string{"v3.1", "v3.1.1", "v5.0"}
-	mc.Options.ConnectTimeout = 1
+	mc.Options.ConnectTimeout = ct
 	mc.Options.ReceiveMax = 65535
 	mc.Options.MaxPacketSize = 268435455
 	mc.Options.MaxQoS = mqttp.QoS2
